@@ -25,7 +25,7 @@ from .env import VERIF_DIR, REPO, HarnessError
 
 KNOWN_FILE = os.path.join(VERIF_DIR, "known_findings.json")
 CORPUS_DIR = os.path.join(VERIF_DIR, "replays")
-OUT_DIR = os.path.join(VERIF_DIR, "out", "replays")
+OUT_DIR = os.path.join(VERIF_DIR, "out", "replays" if REPO == "/repo" else "selftest_replays")
 EVID_DIR = os.path.join(VERIF_DIR, "evidence")
 
 
